@@ -59,6 +59,10 @@ def gen_history(rng, n):
             if rng.random() < 0.2:
                 refs.append(gen.mkid(rng))
             tags = [["e", x] for x in refs]
+            if rng.random() < 0.2:
+                # a deletion with no usable e reference at all: no tags, only NIP-09 address tags, only malformed ids, p tags
+                tags = rng.choice([[], [["a", "1:%s:" % tgt["pubkey"]]], [["e", "zz"]], [["e"]], [["p", tgt["pubkey"]]],
+                                   [["e", tgt["id"][:40]]], [["a", "30000:%s:x" % tgt["pubkey"]], ["e", ""]]])
             rr = rng.random()
             if rr < 0.07:
                 tags.insert(rng.randrange(len(tags) + 1), ["e", "zz"])
@@ -166,7 +170,7 @@ def run(report, tier, seed):
     drv = common.Driver()
     stores = [KVStore(), SQLStore()]
     report.coverage["rule"] = (
-        "histories of 3-10 events over 3 authors: regular events (ids starting 00/ff/random, 4 timestamps) and kind-5 "
+        "histories of 3-10 events over 3 authors (deletions also with no usable e reference: none, only a / p tags, only malformed ids): regular events (ids starting 00/ff/random, 4 timestamps) and kind-5 "
         "deletions referencing own / foreign / unknown / several / malformed ('zz', bare e tag, upper-case hex) ids, "
         "created -1/0/+1/+2/+100 s relative to the target, in generated arrival order, on both backends; non-trivial = "
         "the history contains a deletion")
